@@ -51,6 +51,9 @@ func (cs *StatusList2021) Verify(credentialToVerify vc.VerifiableCredential) err
 	// only check credentialStatus of type StatusList2021Entry with statusPurpose == revocation other types/purposes are ignored
 	// returns errors if processing fails -> TODO: hard/soft fail option?
 	// returns types.ErrRevoked if correct type, purpose, and listed.
+	// An entry that cannot be evaluated does not end the check: the other entries could still confirm a revocation.
+	// The first of these errors is returned when no entry confirms that the credential is revoked.
+	var firstErr error
 	for _, status := range statuses {
 		if status.Type != StatusList2021EntryType {
 			// ignore other credentialStatus.type
@@ -79,10 +82,16 @@ func (cs *StatusList2021) Verify(credentialToVerify vc.VerifiableCredential) err
 		// get StatusList2021Credential with same purpose
 		sList, err := cs.statusList(slEntry.StatusListCredential)
 		if err != nil {
-			return fmt.Errorf("status list: %w", err)
+			if firstErr == nil {
+				firstErr = fmt.Errorf("status list: %w", err)
+			}
+			continue
 		}
 		if sList.StatusPurpose != slEntry.StatusPurpose {
-			return fmt.Errorf("StatusList2021Credential.credentialSubject.statusPuspose='%s' does not match vc.credentialStatus.statusPurpose='%s'", sList.StatusPurpose, slEntry.StatusPurpose)
+			if firstErr == nil {
+				firstErr = fmt.Errorf("StatusList2021Credential.credentialSubject.statusPuspose='%s' does not match vc.credentialStatus.statusPurpose='%s'", sList.StatusPurpose, slEntry.StatusPurpose)
+			}
+			continue
 		}
 
 		// check if listed
@@ -93,13 +102,16 @@ func (cs *StatusList2021) Verify(credentialToVerify vc.VerifiableCredential) err
 		}
 		revoked, err := sList.Bitstring.bit(index)
 		if err != nil {
-			return err
+			if firstErr == nil {
+				firstErr = err
+			}
+			continue
 		}
 		if revoked {
 			return errRevoked
 		}
 	}
-	return nil
+	return firstErr
 }
 
 func (cs *StatusList2021) statusList(statusListCredential string) (*credentialRecord, error) {
